@@ -108,3 +108,218 @@ example : commitObj demoClasses 2 0 [5] (.strct [.int 2, .int 5, .none, .str [0x
   commit_construct_id demoClasses 1 0 [5] demoSecs _ demoClasses[0] rfl (by decide) (by rfl)
 
 end Aoe.Props.Links
+
+/-! ## the general case: classes with refresh actions and object lists -/
+namespace Aoe.Props.Links
+open Aoe Aoe.Codec Aoe.Lens Aoe.Commit
+
+/-- a refresh action is *stable* in `s`: what its eval yields is what its destination already holds (a stored count that
+equals the number of stored elements, a derived field that is in sync). This is the engine-level part of the normal form
+of C01: in a consistent file every `len(...)` refresh is stable. -/
+def actStable (s : Sections) (recPath : List Step) (names : List Nat) (a : RefreshAct) : Prop :=
+  ∃ selfRec v, getAt recPath s.root = some selfRec ∧ a.expr.eval (s.env names selfRec) = .ok v ∧
+    getAt (match a.dest with | .self i => recPath ++ [Step.fld i] | .sec sc i => [Step.fld sc, Step.fld i]) s.root = some v
+
+theorem applyActs_stable (acts : List RefreshAct) (recPath : List Step) (names : List Nat) (s : Sections)
+    (h : ∀ a ∈ acts, actStable s recPath names a) : applyActs acts recPath names s = .ok s := by
+  unfold applyActs
+  apply foldlM_fixed
+  intro a ha
+  obtain ⟨selfRec, v, h1, h2, h3⟩ := h a ha
+  have hs := Aoe.Props.C05.set_get _ s.root v h3
+  simp only [h1, h2, bind, Except.bind, pure, Except.pure]
+  cases hd : a.dest <;> simp only [hd] at hs <;> simp [hs, Option.bind, withRoot_root]
+
+theorem mapM_range'_get {β : Type} (f : Nat → Except Err β) (k n : Nat) (os : List β)
+    (h : (List.range' k n).mapM f = .ok os) : ∀ i o, os[i]? = some o → f (k + i) = .ok o := by
+  induction n generalizing k os with
+  | zero =>
+    simp only [List.range'_zero, List.mapM_nil, pure, Except.pure, Except.ok.injEq] at h
+    subst h; intro i o hi; simp at hi
+  | succ n ih =>
+    rw [List.range'_succ, List.mapM_cons] at h
+    simp only [bind, Except.bind] at h
+    cases hf : f k with
+    | error e => rw [hf] at h; cases h
+    | ok b =>
+      rw [hf] at h; simp only at h
+      cases hr : (List.range' (k + 1) n).mapM f with
+      | error e => rw [hr] at h; cases h
+      | ok bs =>
+        rw [hr] at h
+        simp only [pure, Except.pure, Except.ok.injEq] at h
+        subst h
+        intro i o hi
+        cases i with
+        | zero => simp only [List.getElem?_cons_zero, Option.some.injEq] at hi; subst hi; simpa using hf
+        | succ j =>
+          simp only [List.getElem?_cons_succ] at hi
+          have := ih (k + 1) bs hr j o hi
+          rw [show k + (j + 1) = k + 1 + j by omega]; exact this
+
+theorem mapM_range_length {β : Type} (f : Nat → Except Err β) (k n : Nat) (os : List β)
+    (h : (List.range' k n).mapM f = .ok os) : os.length = n := by
+  induction n generalizing k os with
+  | zero => simp only [List.range'_zero, List.mapM_nil, pure, Except.pure, Except.ok.injEq] at h; subst h; rfl
+  | succ n ih =>
+    rw [List.range'_succ, List.mapM_cons] at h
+    simp only [bind, Except.bind] at h
+    cases hf : f k with
+    | error e => rw [hf] at h; cases h
+    | ok b =>
+      rw [hf] at h; simp only at h
+      cases hr : (List.range' (k + 1) n).mapM f with
+      | error e => rw [hr] at h; cases h
+      | ok bs =>
+        rw [hr] at h
+        simp only [pure, Except.pure, Except.ok.injEq] at h
+        subst h
+        simp [ih (k + 1) bs hr]
+
+/-- the refresh-stable normal form of everything an object of class `cls` (with index history `hist`) touches -/
+def Stable (classes : List ClassSpec) : Nat → Nat → List Nat → Sections → Prop
+  | 0, _, _, _ => True
+  | fuel + 1, cls, hist, s =>
+    match classes[cls]? with
+    | some c => ∀ l ∈ c.links,
+        match l.2 with
+        | .plain path acts names => ∀ p, resolve hist path = some p → ∀ a ∈ acts, actStable s (dropLastStep p) names a
+        | .objs path ccls _ _ _ acts names => ∀ p, resolve hist path = some p →
+            (∀ a ∈ acts, actStable s (dropLastStep p) names a) ∧
+            (∀ l', getAt p s.root = some (.list l') → ∀ i, i < l'.length → Stable classes fuel ccls (hist ++ [i]) s)
+        | _ => True
+    | none => True
+
+/-- **commit ∘ construct = id for every class**: committing exactly what was constructed leaves every section unchanged,
+provided the sections are refresh-stable (stored counts and derived fields in sync) -/
+theorem commit_construct_id_general (classes : List ClassSpec) (fuel : Nat) :
+    ∀ (cls : Nat) (hist : List Nat) (s : Sections) (obj : Val), Stable classes fuel cls hist s →
+      constructObj classes fuel cls hist s = .ok obj → commitObj classes fuel cls hist obj s = .ok s := by
+  induction fuel with
+  | zero => intro cls hist s obj _ h; simp [constructObj] at h
+  | succ fuel ih =>
+    intro cls hist s obj hst h
+    cases hc : classes[cls]? with
+    | none => simp [constructObj, hc] at h
+    | some c =>
+      simp only [constructObj, hc, bind, Except.bind] at h
+      simp only [Stable, hc] at hst
+      cases hm : c.links.mapM (pullLink (fun ccls h => constructObj classes fuel ccls h s) hist s) with
+      | error e => rw [hm] at h; cases h
+      | ok vals =>
+        rw [hm] at h
+        simp only [pure, Except.pure, Except.ok.injEq] at h
+        subst h
+        simp only [commitObj, hc]
+        apply foldlM_fixed
+        intro lv hlv
+        have hmem : lv ∈ c.links.zip vals := by simpa using hlv
+        have hpull := mapM_zip _ c.links vals hm lv hmem
+        have hl : lv.1 ∈ c.links := (List.of_mem_zip hmem).1
+        have hstl := hst lv.1 hl
+        obtain ⟨⟨a, k⟩, v⟩ := lv
+        simp only at hpull hstl
+        cases k with
+        | hist n => rfl
+        | skip => rfl
+        | plain path acts names =>
+          simp only [pullLink] at hpull
+          cases hr : resolve hist path with
+          | none => simp [hr] at hpull
+          | some p =>
+            simp only [hr, Option.bind] at hpull
+            cases hg : getAt p s.root with
+            | none => simp [hg] at hpull
+            | some w =>
+              simp only [hg, pure, Except.pure, Except.ok.injEq] at hpull
+              subst hpull
+              have hs := Aoe.Props.C05.set_get p s.root w hg
+              have ha := applyActs_stable acts (dropLastStep p) names s (hstl p hr)
+              simp only [pushLink, hr, hs, Option.bind, withRoot_root, bind, Except.bind, pure, Except.pure, ha]
+        | objs path ccls defaults childNames guards acts names =>
+          simp only [pullLink] at hpull
+          cases hr : resolve hist path with
+          | none => simp [hr] at hpull
+          | some p =>
+            simp only [hr, Option.bind] at hpull
+            obtain ⟨hacts, hchildren⟩ := hstl p hr
+            cases hg : getAt p s.root with
+            | none => simp [hg] at hpull
+            | some w =>
+              simp only [hg] at hpull
+              cases w with
+              | list old =>
+                simp only [bind, Except.bind] at hpull
+                cases hos : (List.range old.length).mapM (fun i => constructObj classes fuel ccls (hist ++ [i]) s) with
+                | error e => rw [hos] at hpull; cases hpull
+                | ok os =>
+                  rw [hos] at hpull
+                  simp only [pure, Except.pure, Except.ok.injEq] at hpull
+                  subst hpull
+                  rw [List.range_eq_range'] at hos
+                  have hlen := mapM_range_length _ 0 old.length os hos
+                  have hget := mapM_range'_get _ 0 old.length os hos
+                  have hrs : resizeList old old.length (Val.strct []) = old := by
+                    unfold resizeList; simp
+                  have hs := Aoe.Props.C05.set_get p s.root (.list old) hg
+                  have hchild : (os.zipIdx).foldlM (fun (s : Sections) (oi : Val × Nat) =>
+                      commitObj classes fuel ccls (hist ++ [oi.2]) oi.1 s) s = .ok s := by
+                    apply foldlM_fixed
+                    intro oi hoi
+                    have hi := List.mem_zipIdx_iff_getElem?.mp hoi
+                    have hlt : oi.2 < old.length := by
+                      rw [← hlen]
+                      rcases Nat.lt_or_ge oi.2 os.length with h' | h'
+                      · exact h'
+                      · rw [List.getElem?_eq_none h'] at hi; cases hi
+                    have hcon := hget oi.2 oi.1 hi
+                    simp only [Nat.zero_add] at hcon
+                    exact ih ccls (hist ++ [oi.2]) s oi.1 (hchildren old hg oi.2 hlt) hcon
+                  have ha := applyActs_stable acts (dropLastStep p) names s hacts
+                  simp only [pushLink, hr, hg, bind, Except.bind, pure, Except.pure, hlen, Nat.le_refl, if_true]
+                  rw [hrs, hs]
+                  simp only [Option.bind, withRoot_root, hchild, ha]
+              | int _ => simp at hpull
+              | flt _ => simp at hpull
+              | data _ => simp at hpull
+              | str _ => simp at hpull
+              | none => simp at hpull
+              | strct _ => simp at hpull
+
+end Aoe.Props.Links
+
+namespace Aoe.Props.Links
+open Aoe Aoe.Codec Aoe.Lens Aoe.Commit
+
+/-! ### non-vacuity of the general theorem: a class with an object list and a count refresh -/
+def demo2Classes : List ClassSpec :=
+  [{ name := 0, links := [(0, .objs [.fld 0, .fld 1] 1 [.int 0] [7] []
+        [{ dest := .self 0, expr := .len (.ref (.self 6)) }] [5, 6])] },
+   { name := 1, links := [(1, .plain [.fld 0, .fld 1, .hidx 0, .fld 0] [] [7]), (2, .hist 0)] }]
+def demo2Secs : Sections :=
+  { names := [(9, [5, 6])], recs := [.strct [.int 2, .list [.strct [.int 10], .strct [.int 20]]]] }
+
+example : constructObj demo2Classes 3 0 [] demo2Secs
+    = .ok (.strct [.list [.strct [.int 10, .int 0], .strct [.int 20, .int 1]]]) := by rfl
+
+theorem demo2_stable : Stable demo2Classes 3 0 [] demo2Secs := by
+  simp only [Stable, demo2Classes, List.getElem?_cons_zero, List.mem_singleton, forall_eq]
+  intro p hp
+  simp only [resolve, Option.map, Option.some.injEq] at hp
+  subst hp
+  refine ⟨?_, ?_⟩
+  · exact ⟨.strct [.int 2, .list [.strct [.int 10], .strct [.int 20]]], .int 2, by rfl, by rfl, by rfl⟩
+  · intro l' hl' i hi
+    show Stable demo2Classes 2 1 ([] ++ [i]) demo2Secs
+    simp only [Stable, demo2Classes, List.getElem?_cons_succ, List.getElem?_cons_zero]
+    intro l hl
+    simp only [List.mem_cons, List.mem_nil_iff, or_false] at hl
+    rcases hl with rfl | rfl
+    · intro p hp a ha; simp at ha
+    · trivial
+
+example : commitObj demo2Classes 3 0 [] (.strct [.list [.strct [.int 10, .int 0], .strct [.int 20, .int 1]]]) demo2Secs
+    = .ok demo2Secs :=
+  commit_construct_id_general demo2Classes 3 0 [] demo2Secs _ demo2_stable (by rfl)
+
+end Aoe.Props.Links
